@@ -1,2 +1,598 @@
-From GVL Require Import NList.
-From GV_mpeg4audio Require Import Model.
+(* rtpmpeg4audio: packet well-formedness (C06), round trip (C03), resynchronisation (C07),
+   totality / boundedness on arbitrary histories (C08). *)
+From GVL Require Import NList Wire Chunks Rtp.
+From GV_mpeg4audio Require Import WireF Bits BitsProofs Model.
+From Coq Require Import ZifyBool ZifyNat ZifyN.
+Open Scope N_scope.
+Ltac splits := repeat match goal with |- _ /\ _ => split end.
+
+(* ---------- generic helpers ---------- *)
+Lemma seq_add_next s k : seq_add (seq_next s) k = seq_add s (k + 1).
+Proof. unfold seq_add, seq_next. rewrite N.add_mod_idemp_l by lia. f_equal. lia. Qed.
+Lemma seq_add_0 s : s < 65536 -> seq_add s 0 = s.
+Proof. intros H. unfold seq_add. rewrite N.add_0_r. now apply N.mod_small. Qed.
+Lemma seq_add_add s a b : seq_add (seq_add s a) b = seq_add s (a + b).
+Proof. unfold seq_add. rewrite N.add_mod_idemp_l by lia. f_equal. lia. Qed.
+Lemma seq_add_lt s k : seq_add s k < 65536.
+Proof. unfold seq_add. apply N.mod_lt. lia. Qed.
+Lemma seq_next_lt s : seq_next s < 65536.
+Proof. unfold seq_next. apply N.mod_lt. lia. Qed.
+Lemma seq_add_1 s : seq_add s 1 = seq_next s.
+Proof. reflexivity. Qed.
+
+Lemma nnth_app_l {A} (l1 l2 : list A) i : i < nlen l1 -> nnth i (l1 ++ l2) = nnth i l1.
+Proof.
+  revert i; induction l1 as [|x t IH]; intros i H; cbn [nlen app nnth] in *; [lia|].
+  destruct (N.eqb_spec i 0); [reflexivity|]. apply IH. lia.
+Qed.
+Lemma nnth_app_r {A} (l1 l2 : list A) i : nlen l1 <= i -> nnth i (l1 ++ l2) = nnth (i - nlen l1) l2.
+Proof.
+  revert i; induction l1 as [|x t IH]; intros i H; cbn [nlen app nnth] in *; [f_equal; lia|].
+  destruct (N.eqb_spec i 0); [lia|]. rewrite IH by lia. f_equal. lia.
+Qed.
+Lemma nnth_some_lt {A} (l : list A) i x : nnth i l = Some x -> i < nlen l.
+Proof.
+  intros H. destruct (N.ltb_spec i (nlen l)); [assumption|]. rewrite nnth_ge in H by assumption. discriminate.
+Qed.
+Lemma concat_snoc {A} (l : list (list A)) x : concat (l ++ [x]) = concat l ++ x.
+Proof. rewrite concat_app. cbn. now rewrite app_nil_r. Qed.
+Lemma nrep_succ {A} (x : A) k : nrep x (N.succ k) = x :: nrep x k.
+Proof. rewrite !nrep_repeat, N2Nat.inj_succ. reflexivity. Qed.
+Lemma nset_app_here {A} (l1 : list A) x v t : nset (nlen l1) v (l1 ++ x :: t) = l1 ++ v :: t.
+Proof.
+  induction l1 as [|y l IH]; cbn [nlen app nset]; [reflexivity|].
+  destruct (N.eqb_spec (N.succ (nlen l)) 0); [lia|]. now rewrite N.pred_succ, IH.
+Qed.
+
+Lemma ceil8_bound n : n <= 8 * ceil8 n /\ (n <= 8 * 0 -> ceil8 n = 0).
+Proof. unfold ceil8. destruct (N.eqb_spec (n mod 8) 0); split; intros; try lia; rewrite N.div_small; lia. Qed.
+Lemma ceil8_le n k : n <= 8 * k -> ceil8 n <= k.
+Proof. unfold ceil8. destruct (N.eqb_spec (n mod 8) 0); lia. Qed.
+Lemma ceil8_mono a b : a <= b -> ceil8 a <= ceil8 b.
+Proof. intros H. apply ceil8_le. pose proof (ceil8_bound b). lia. Qed.
+
+Definition cfg_ok (c : cfg) : Prop := 0 < sl c /\ sl c <= 32 /\ il c <= 32 /\ idl c <= 32.
+(* the smallest workable PayloadMaxSize: room for AU-headers-length, one AU-header and one byte *)
+Definition minmax (c : cfg) : N := 2 + ceil8 (hw c true) + 1.
+
+Section P.
+Variable c : cfg.
+Variable max : N.
+Hypothesis Hcfg : cfg_ok c.
+Hypothesis Hmax : minmax c <= max.
+
+Notation hw := (hw c).
+Notation hbits := (hbits c).
+Notation len_agg := (len_agg c).
+
+Lemma hw_pos first : 0 < hw first.
+Proof. destruct Hcfg. unfold Model.hw. destruct first; lia. Qed.
+
+(* ---------- header sizes ---------- *)
+Definition hrem (first : bool) (k : N) : N := if k =? 0 then 0 else hw first + (k - 1) * hw false.
+
+Lemma nlen_au_hdr first size : nlen (au_hdr c first size) = hw first.
+Proof.
+  unfold au_hdr, Model.hw. rewrite nlen_app, !nlen_bits_be, !N2Nat.id. destruct first; reflexivity.
+Qed.
+
+Lemma nlen_hdr_bits aus : forall first, nlen (hdr_bits c first aus) = hrem first (nlen aus).
+Proof.
+  induction aus as [|a t IH]; intros first; cbn [hdr_bits nlen]; [reflexivity|].
+  rewrite nlen_app, nlen_au_hdr, IH. unfold hrem.
+  destruct (N.eqb_spec (N.succ (nlen t)) 0); [lia|]. replace (N.succ (nlen t) - 1) with (nlen t) by lia.
+  destruct (N.eqb_spec (nlen t) 0) as [->|Hn]; [lia|].
+  set (w := hw false). replace (nlen t * w) with (w + (nlen t - 1) * w) by nia. lia.
+Qed.
+
+Lemma hbits_hrem k : hbits k = hrem true k.
+Proof. reflexivity. Qed.
+
+Lemma nlen_pack_ceil8 bs : nlen (pack bs) = ceil8 (nlen bs).
+Proof. apply nlen_pack. Qed.
+
+Lemma len_agg_snoc b a : len_agg (b ++ [a]) None = len_agg b (Some a).
+Proof.
+  unfold Model.len_agg. rewrite nlen_app, concat_snoc, nlen_app. cbn [nlen].
+  replace (nlen b + N.succ 0 + 0) with (nlen b + 1) by lia. lia.
+Qed.
+
+Definition psize (p : packet) : N := nlen (ppayload p).
+
+Lemma write_agg_size aus ts seq p : In p (write_agg c aus ts seq) -> psize p = len_agg aus None.
+Proof.
+  intros [<-|[]]. unfold psize, Model.len_agg; cbn [ppayload be16].
+  rewrite !nlen_app, nlen_pack_ceil8, nlen_hdr_bits. replace (nlen aus + 0) with (nlen aus) by lia.
+  rewrite hbits_hrem. cbn [be16 nlen]. lia.
+Qed.
+
+(* ---------- sequence numbers and markers ---------- *)
+Definition seqs_ok (seq : N) (ps : list packet) : Prop :=
+  forall i p, nnth i ps = Some p -> pseq p = seq_add seq i.
+Definition markers_ok (g : list packet) : Prop :=
+  forall i p, nnth i g = Some p -> pmarker p = (i + 1 =? nlen g).
+
+Lemma seqs_ok_app seq ps qs : seqs_ok seq ps -> seqs_ok (seq_add seq (nlen ps)) qs -> seqs_ok seq (ps ++ qs).
+Proof.
+  intros H1 H2 i p H. destruct (N.ltb_spec i (nlen ps)).
+  - rewrite nnth_app_l in H by assumption. now apply H1.
+  - rewrite nnth_app_r in H by assumption. apply H2 in H. rewrite H, seq_add_add. f_equal. lia.
+Qed.
+
+Lemma frag_pkts_len seq ts cs : nlen (frag_pkts c seq ts cs) = nlen cs.
+Proof. revert seq; induction cs as [|x t IH]; intros seq; cbn [frag_pkts nlen]; [reflexivity|]. now rewrite IH. Qed.
+
+Lemma frag_pkts_seq ts cs : forall seq, seq < 65536 -> seqs_ok seq (frag_pkts c seq ts cs).
+Proof.
+  induction cs as [|x t IH]; intros seq Hs i p H; cbn [frag_pkts nnth] in H; [discriminate|].
+  destruct (N.eqb_spec i 0) as [->|Hi].
+  - injection H as <-. cbn [pseq]. now rewrite seq_add_0.
+  - apply IH in H; [|apply seq_next_lt]. rewrite H, seq_add_next. f_equal. lia.
+Qed.
+
+Lemma frag_pkts_marker ts cs : forall seq, markers_ok (frag_pkts c seq ts cs).
+Proof.
+  induction cs as [|x t IH]; intros seq i p H; cbn [frag_pkts nnth] in H; [discriminate|].
+  rewrite frag_pkts_len. destruct (N.eqb_spec i 0) as [->|Hi].
+  - injection H as <-. cbn [pmarker nlen]. destruct t; cbn [nlen]; [reflexivity|]. symmetry. apply N.eqb_neq. lia.
+  - apply IH in H. rewrite H, frag_pkts_len. cbn [nlen].
+    destruct (N.eqb_spec (N.pred i + 1) (nlen t)); destruct (N.eqb_spec (i + 1) (N.succ (nlen t))); try reflexivity; lia.
+Qed.
+
+Lemma frag_pkts_size ts cs : forall seq p, In p (frag_pkts c seq ts cs) ->
+  exists x, In x cs /\ psize p = 2 + ceil8 (hw true) + nlen x /\ pts p = ts.
+Proof.
+  induction cs as [|x t IH]; intros seq p H; cbn [frag_pkts In] in H; [contradiction|].
+  destruct H as [<-|H].
+  - exists x. split; [now left|]. unfold psize; cbn [ppayload pts be16]. split; [|reflexivity].
+    rewrite !nlen_app, nlen_pack_ceil8, nlen_au_hdr. cbn [nlen be16].
+    lia.
+  - destruct (IH _ _ H) as (y & Hy & Hs). exists y. split; [now right|assumption].
+Qed.
+
+(* ---------- one batch ---------- *)
+(* a batch the loop can hand to writeBatch: two or more AUs only if they fit together *)
+Definition batch_ok (b : list bytes) : Prop := 2 <= nlen b -> len_agg b None <= max.
+
+Lemma avail_pos : 0 < max - 2 - ceil8 (hw true).
+Proof. unfold minmax in Hmax. lia. Qed.
+
+Lemma write_batch_wf b ts seq : batch_ok b -> seq < 65536 -> Forall (fun a => a <> []) b ->
+  exists g, write_batch c max b ts seq = Some g /\ g <> [] /\
+    Forall (fun p => psize p <= max /\ pts p = ts) g /\ seqs_ok seq g /\ markers_ok g.
+Proof.
+  intros Hb Hs Hne.
+  assert (Hagg : (nlen b <> 1 \/ len_agg b None < max) -> len_agg b None <= max ->
+     exists g, Some (write_agg c b ts seq) = Some g /\ g <> [] /\
+       Forall (fun p => psize p <= max /\ pts p = ts) g /\ seqs_ok seq g /\ markers_ok g).
+  { intros _ Hle. eexists. split; [reflexivity|]. split; [discriminate|]. splits.
+    - constructor; [|constructor]. split; [|reflexivity]. rewrite (write_agg_size b ts seq); [assumption|now left].
+    - intros i p H. unfold write_agg in H. cbn [nnth] in H. destruct (N.eqb_spec i 0) as [->|]; [|discriminate].
+      injection H as <-. cbn [pseq]. now rewrite seq_add_0.
+    - intros i p H. unfold write_agg in H. cbn [nnth] in H. destruct (N.eqb_spec i 0) as [->|]; [|discriminate].
+      injection H as <-. reflexivity. }
+  destruct b as [|a [|a2 t]].
+  - (* empty batch: 2 bytes *) apply Hagg; [left; cbn; lia|]. unfold Model.len_agg, Model.hbits. cbn. unfold minmax in Hmax. lia.
+  - cbn [write_batch]. destruct (N.ltb_spec (len_agg [a] None) max) as [Hlt|Hge].
+    + apply Hagg; [now right|lia].
+    + unfold write_frag. destruct (N.ltb_spec max (2 + ceil8 (hw true) + 1)); [unfold minmax in Hmax; lia|].
+      pose proof avail_pos as Hav. inversion Hne as [|? ? Ha _]; subst.
+      eexists. split; [reflexivity|]. splits.
+      * rewrite chunks_cons by assumption. discriminate.
+      * rewrite Forall_forall. intros p Hp. apply frag_pkts_size in Hp. destruct Hp as (x & Hx & Hsz & Hts).
+        split; [|assumption]. pose proof (chunks_bounds (max - 2 - ceil8 (hw true)) a Hav) as Hcb.
+        rewrite Forall_forall in Hcb. specialize (Hcb x Hx). lia.
+      * now apply frag_pkts_seq.
+      * apply frag_pkts_marker.
+  - apply Hagg; [left; cbn [nlen]; lia|]. apply Hb. cbn [nlen]. lia.
+Qed.
+
+(* ---------- the batching loop ---------- *)
+Lemma batch_loop_ok aus : forall b, batch_ok b -> Forall batch_ok (batch_loop c max aus b).
+Proof.
+  induction aus as [|a t IH]; intros b Hb; cbn [batch_loop]; [now constructor|].
+  destruct (N.leb_spec (len_agg b (Some a)) max) as [Hle|Hgt].
+  - apply IH. intros _. now rewrite len_agg_snoc.
+  - assert (H1 : batch_ok [a]) by (intros H; cbn [nlen] in H; lia).
+    destruct b; [now apply IH|]. constructor; [assumption|now apply IH].
+Qed.
+
+Lemma batch_loop_concat aus : forall b, concat (batch_loop c max aus b) = b ++ aus.
+Proof.
+  induction aus as [|a t IH]; intros b; cbn [batch_loop].
+  - cbn. now rewrite !app_nil_r.
+  - destruct (len_agg b (Some a) <=? max).
+    + rewrite IH, <- app_assoc. reflexivity.
+    + destruct b as [|b0 bt]; [now rewrite IH|]. cbn [concat]. rewrite IH. reflexivity.
+Qed.
+
+Lemma batch_loop_nonempty aus : forall b, (b <> [] \/ aus <> []) -> Forall (fun x => x <> []) (batch_loop c max aus b).
+Proof.
+  induction aus as [|a t IH]; intros b H; cbn [batch_loop].
+  - constructor; [|constructor]. destruct H as [H|H]; [assumption|contradiction].
+  - destruct (len_agg b (Some a) <=? max).
+    + apply IH. left. destruct b; discriminate.
+    + destruct b as [|b0 bt]; [apply IH; left; discriminate|].
+      constructor; [discriminate|]. apply IH. left; discriminate.
+Qed.
+
+(* ---------- the whole Encode call, batch by batch ---------- *)
+Fixpoint enc_groups (bs : list (list bytes)) (ts seq : N) : option (list (list packet)) :=
+  match bs with
+  | [] => Some []
+  | b :: t =>
+      match write_batch c max b ts seq with
+      | None => None
+      | Some g => option_map (cons g) (enc_groups t ((ts + nlen b * spau) mod 4294967296) (seq_add seq (nlen g)))
+      end
+  end.
+
+Lemma enc_batches_groups bs : forall ts seq, seq < 65536 ->
+  enc_batches c max bs ts seq =
+  match enc_groups bs ts seq with
+  | None => None
+  | Some gs => Some (concat gs, seq_add seq (nlen (concat gs)))
+  end.
+Proof.
+  induction bs as [|b t IH]; intros ts seq Hs; cbn [enc_batches enc_groups].
+  - cbn. now rewrite seq_add_0.
+  - destruct (write_batch c max b ts seq) as [g|]; [|reflexivity].
+    rewrite IH by apply seq_add_lt. destruct (enc_groups t _ _) as [gs|]; cbn [option_map]; [|reflexivity].
+    cbn [concat]. rewrite nlen_app, seq_add_add. reflexivity.
+Qed.
+
+Lemma enc_groups_wf bs : forall ts seq, seq < 65536 -> Forall batch_ok bs ->
+  Forall (Forall (fun a => a <> [])) bs ->
+  exists gs, enc_groups bs ts seq = Some gs /\ nlen gs = nlen bs /\
+    Forall (fun g => g <> [] /\ markers_ok g /\ Forall (fun p => psize p <= max) g) gs /\
+    seqs_ok seq (concat gs).
+Proof.
+  induction bs as [|b t IH]; intros ts seq Hs Hok Hne; cbn [enc_groups].
+  - exists []. splits; try reflexivity; [constructor|]. intros i p H. cbn in H. discriminate.
+  - inversion Hok as [|? ? Hb Ht]; subst. inversion Hne as [|? ? Hn Hnt]; subst.
+    destruct (write_batch_wf b ts seq Hb Hs Hn) as (g & Hg & Hgne & Hgsz & Hgseq & Hgm). rewrite Hg.
+    destruct (IH ((ts + nlen b * spau) mod 4294967296) (seq_add seq (nlen g)) (seq_add_lt _ _) Ht Hnt)
+      as (gs & Hgs & Hlen & Hall & Hseq).
+    rewrite Hgs. cbn [option_map]. exists (g :: gs). splits.
+    + reflexivity.
+    + cbn [nlen]. now rewrite Hlen.
+    + constructor; [|assumption]. splits; try assumption.
+      eapply Forall_impl; [|exact Hgsz]. cbn. tauto.
+    + cbn [concat]. now apply seqs_ok_app.
+Qed.
+
+(* C06: every packet of an Encode call is within the limit, sequence numbers run on from the
+   encoder's counter, every batch group ends with (exactly) one marker packet *)
+Theorem enc_wellformed seq aus : seq < 65536 -> Forall (fun a => a <> []) aus ->
+  exists gs, enc_groups (batch_loop c max aus []) 0 seq = Some gs /\
+    enc c max seq aus = Some (concat gs, seq_add seq (nlen (concat gs))) /\
+    Forall (fun g => g <> [] /\ markers_ok g /\ Forall (fun p => psize p <= max) g) gs /\
+    seqs_ok seq (concat gs).
+Proof.
+  intros Hs Hne.
+  destruct (enc_groups_wf (batch_loop c max aus []) 0 seq Hs) as (gs & Hgs & _ & Hall & Hseq).
+  - apply batch_loop_ok. intros H. cbn in H. lia.
+  - assert (G : forall bs, Forall (fun a : bytes => a <> []) (concat bs) -> Forall (Forall (fun a : bytes => a <> [])) bs).
+    { induction bs as [|x t IHb]; intros H; constructor; cbn [concat] in H; apply Forall_app in H; [tauto|apply IHb; tauto]. }
+    apply G. rewrite batch_loop_concat. exact Hne.
+  - exists gs. splits; try assumption. unfold enc. rewrite enc_batches_groups by assumption. now rewrite Hgs.
+Qed.
+
+End P.
+
+(* ====================================================================================== *)
+(* ---------- decoder: invariant, totality, bounds (arbitrary histories, C08) ---------- *)
+Section D.
+Variable c : cfg.
+Hypothesis Hcfg : cfg_ok c.
+Notation hw := (hw c).
+
+Lemma hw_pos' first : 0 < hw first.
+Proof. destruct Hcfg. unfold Model.hw. destruct first; lia. Qed.
+
+(* number of AU-headers still announced by a remaining headers length *)
+Definition cntf (x : N) : N := (x + hw false - 1) / hw false.
+Definition cnt_rem (hl : N) (first : bool) : N :=
+  if first then (if hl =? 0 then 0 else 1 + cntf (hl - hw true)) else cntf hl.
+
+Lemma cntf_0 : cntf 0 = 0.
+Proof. unfold cntf. pose proof (hw_pos' false). apply N.div_small. lia. Qed.
+
+Lemma cntf_step x : 0 < x -> cntf x = 1 + cntf (x - hw false).
+Proof.
+  intros Hx. unfold cntf. pose proof (hw_pos' false) as Hw. set (w := hw false) in *.
+  destruct (N.leb_spec x w).
+  - replace (x - w) with 0 by lia. rewrite (N.div_small (0 + w - 1)) by lia.
+    rewrite N.add_0_r. symmetry. apply (N.div_unique (x + w - 1) w 1 (x - 1)); lia.
+  - replace (x + w - 1) with ((x - w + w - 1) + 1 * w) by lia. rewrite N.div_add by lia. lia.
+Qed.
+
+Lemma cnt_rem_0 first : cnt_rem 0 first = 0.
+Proof. unfold cnt_rem. destruct first; [reflexivity|apply cntf_0]. Qed.
+
+Lemma cnt_rem_step hl first : 0 < hl -> cnt_rem hl first = 1 + cnt_rem (hl - hw first) false.
+Proof.
+  intros H. unfold cnt_rem. destruct first.
+  - destruct (N.eqb_spec hl 0); [lia|reflexivity].
+  - now apply cntf_step.
+Qed.
+
+Lemma hcount_closed hl : hcount c hl = Some (cnt_rem hl true).
+Proof.
+  unfold hcount, cnt_rem. pose proof (hw_pos' true). pose proof (hw_pos' false).
+  destruct (N.eqb_spec hl 0); [reflexivity|].
+  destruct (N.eqb_spec (hw true) 0); [lia|].
+  destruct (N.leb_spec hl (hw true)).
+  - replace (hl - hw true) with 0 by lia. now rewrite cntf_0.
+  - destruct (N.eqb_spec (hw false) 0); [lia|]. reflexivity.
+Qed.
+
+Lemma ntake_nset_succ {A} (l : list A) : forall i v, i < nlen l -> ntake (i + 1) (nset i v l) = ntake i l ++ [v].
+Proof.
+  induction l as [|x t IH]; intros i v H; cbn [nlen] in H; [lia|]. cbn [nset].
+  destruct (N.eqb_spec i 0) as [->|Hi].
+  - cbn [ntake]. cbn. now rewrite ntake_0.
+  - cbn [ntake]. destruct (N.eqb_spec (i + 1) 0); [lia|]. destruct (N.eqb_spec i 0); [lia|].
+    cbn [app]. f_equal. replace (N.pred (i + 1)) with (N.pred i + 1) by lia. apply IH. lia.
+Qed.
+
+Definition posN (v : N) : Prop := 0 < v.
+
+Lemma read_loop_spec fuel : forall bs hl first lens i,
+  nlen bs < nlen fuel -> nlen lens = i + cnt_rem hl first -> Forall posN (ntake i lens) ->
+  match read_loop c fuel bs hl first lens i with
+  | RPanic => False
+  | RErr => True
+  | ROk lens' => nlen lens' = nlen lens /\ Forall posN lens' /\ hl <= nlen bs
+  end.
+Proof.
+  destruct Hcfg as (Hsl & _).
+  induction fuel as [|f0 fuel IH]; intros bs hl first lens i Hf Hn Hp; [cbn [nlen] in Hf; lia|].
+  cbn [read_loop]. destruct (N.eqb_spec hl 0) as [->|Hhl].
+  - rewrite cnt_rem_0 in Hn. splits; [reflexivity| |lia]. rewrite ntake_all in Hp by lia. exact Hp.
+  - pose proof (read_bits_nopanic bs (sl c) Hsl) as Hnp.
+    destruct (read_bits bs (sl c)) as [v bs1| |] eqn:E1; [|exact I|congruence].
+    apply read_bits_ok in E1. destruct E1 as [E1a E1b].
+    destruct (N.eqb_spec v 0) as [|Hv]; [exact I|].
+    set (w := if first then il c else idl c).
+    assert (Hidx : match (if 0 <? w then read_bits bs1 w else BOk 0 bs1) with
+                   | BOk x bs2 => w <= nlen bs1 /\ nlen bs2 = nlen bs1 - w
+                   | BErr => True | BPanic => False end).
+    { destruct (N.ltb_spec 0 w) as [Hw|Hw].
+      - pose proof (read_bits_nopanic bs1 w Hw). destruct (read_bits bs1 w) eqn:E2; [|exact I|congruence].
+        now apply read_bits_ok in E2.
+      - split; lia. }
+    destruct (if 0 <? w then read_bits bs1 w else BOk 0 bs1) as [x bs2| |]; [|exact I|contradiction].
+    destruct Hidx as [E2a E2b].
+    destruct (N.eqb_spec x 0) as [|]; cbn [negb]; [|exact I].
+    assert (Hstep : cnt_rem hl first = 1 + cnt_rem (hl - sl c - w) false).
+    { rewrite cnt_rem_step by lia. f_equal. f_equal. unfold Model.hw, w. destruct first; lia. }
+    destruct (N.ltb_spec i (nlen lens)) as [Hi|Hi]; [|lia].
+    specialize (IH bs2 (hl - sl c - w) false (nset i v lens) (i + 1)).
+    cbn [nlen] in Hf. rewrite nlen_nset in IH.
+    destruct (read_loop c fuel bs2 (hl - sl c - w) false (nset i v lens) (i + 1)).
+    + destruct IH as (H1 & H2 & H3); [lia|lia| |].
+      * rewrite ntake_nset_succ by assumption. apply Forall_app. split; [assumption|]. constructor; [unfold posN; lia|constructor].
+      * splits; [assumption|assumption|lia].
+    + exact I.
+    + apply IH; [lia|lia|]. rewrite ntake_nset_succ by assumption. apply Forall_app. split; [assumption|].
+      constructor; [unfold posN; lia|constructor].
+Qed.
+
+Lemma read_au_headers_spec buf hl :
+  match read_au_headers c buf hl with
+  | RPanic => False
+  | RErr => True
+  | ROk lens => Forall posN lens /\ hl <= 8 * nlen buf
+  end.
+Proof.
+  unfold read_au_headers. rewrite hcount_closed.
+  pose proof (read_loop_spec (true :: bytes_bits buf) (bytes_bits buf) hl true (nrep 0 (cnt_rem hl true)) 0) as H.
+  destruct (read_loop c _ _ _ _ _ _).
+  - destruct H as (_ & H2 & H3); [cbn [nlen]; lia|rewrite nlen_nrep; lia|rewrite ntake_0; constructor|].
+    split; [assumption|]. now rewrite nlen_bytes_bits in H3.
+  - exact I.
+  - apply H; [cbn [nlen]; lia|rewrite nlen_nrep; lia|rewrite ntake_0; constructor].
+Qed.
+
+(* ---- ADTS unmarshal: the AUs are disjoint pieces of the input ---- *)
+Lemma adts_loop_size fuel : forall buf acc res, adts_loop fuel buf acc = Some res ->
+  nlen (concat res) <= nlen (concat acc) + nlen buf.
+Proof.
+  induction fuel as [|f0 fuel IH]; intros buf acc res H; cbn [adts_loop] in H; [discriminate|].
+  destruct buf as [|b0 [|b1 [|b2 [|b3 [|b4 [|b5 [|b6 [|b7 rest']]]]]]]]; try discriminate.
+  remember (b7 :: rest') as rest eqn:Er.
+  do 7 match type of H with (if ?b then None else _) = _ => destruct b; [discriminate|] end.
+  set (fl := (b3 mod 4) * 2048 + b4 * 8 + (b5 / 32) mod 8 - 7) in *.
+  destruct (N.ltb_spec (nlen rest) fl) as [|Hfl]; [discriminate|].
+  assert (Hau : nlen (ntake fl rest) = fl) by (rewrite nlen_ntake; lia).
+  assert (Hrest : nlen (ndrop fl rest) = nlen rest - fl) by apply nlen_ndrop.
+  destruct (ndrop fl rest) as [|y yt] eqn:Ed.
+  - injection H as <-. rewrite concat_snoc, nlen_app, Hau. cbn [nlen] in *. lia.
+  - apply IH in H. rewrite concat_snoc, nlen_app, Hau in H. cbn [nlen] in *. lia.
+Qed.
+
+Lemma adts_unmarshal_size a x : adts_unmarshal a = Some [x] -> nlen x <= nlen a.
+Proof.
+  intros H. apply adts_loop_size in H. cbn [concat nlen] in H. rewrite app_nil_r in H. lia.
+Qed.
+
+Definition fsize (f : list bytes) : N := nlen (concat f).
+
+Lemma remove_adts_spec d aus :
+  let '(d', r) := remove_adts d aus in
+  dfrags d' = dfrags d /\ dsize d' = dsize d /\ dnext d' = dnext d /\ r <> DPanic /\
+  forall f, r = DFrame f -> fsize f <= fsize aus.
+Proof.
+  unfold remove_adts.
+  assert (Hsame : forall d0, dfrags d0 = dfrags d -> dsize d0 = dsize d -> dnext d0 = dnext d ->
+     dfrags d0 = dfrags d /\ dsize d0 = dsize d /\ dnext d0 = dnext d /\ DFrame aus <> DPanic /\
+     forall f, DFrame aus = DFrame f -> fsize f <= fsize aus).
+  { intros. splits; try assumption; [discriminate|]. intros f E; injection E as <-. lia. }
+  destruct (dfirst d); cbn [negb].
+  - destruct (dadts d).
+    + destruct aus as [|a [|a2 t]]; try (splits; try reflexivity; [discriminate|discriminate]).
+      destruct (adts_unmarshal a) as [[|x [|x2 xt]]|] eqn:E; try (splits; try reflexivity; [discriminate|discriminate]).
+      splits; try reflexivity; [discriminate|]. intros f Ef; injection Ef as <-.
+      apply adts_unmarshal_size in E. unfold fsize; cbn [concat]. rewrite !app_nil_r. exact E.
+    + apply Hsame; reflexivity.
+  - destruct aus as [|a [|a2 t]]; try (apply Hsame; reflexivity).
+    destruct (adts_like a); [|apply Hsame; reflexivity].
+    destruct (adts_unmarshal a) as [[|x [|x2 xt]]|] eqn:E; try (apply Hsame; reflexivity).
+    splits; try reflexivity; [discriminate|]. intros f Ef; injection Ef as <-.
+    apply adts_unmarshal_size in E. unfold fsize; cbn [concat]. rewrite !app_nil_r. exact E.
+Qed.
+
+(* ---- join ---- *)
+Lemma join_aux_exact frags : forall size n acc,
+  n = nlen acc -> size = n + nlen (concat frags) -> join_aux frags size n acc = Some (acc ++ concat frags).
+Proof.
+  induction frags as [|p t IH]; intros size n acc Hn Hs; cbn [join_aux concat] in *.
+  - cbn [nlen] in Hs. replace (size - n) with 0 by lia. cbn [nrep]. reflexivity.
+  - rewrite nlen_app in Hs. destruct (N.ltb_spec size n); [lia|].
+    rewrite ntake_all by lia. rewrite IH; [now rewrite <- app_assoc| rewrite nlen_app; lia | lia].
+Qed.
+Lemma join_exact frags : join frags (nlen (concat frags)) = Some (concat frags).
+Proof. unfold join. now rewrite join_aux_exact with (acc := []). Qed.
+
+Lemma split_aus_size lens : forall data aus, split_aus lens data = Some aus -> fsize aus <= nlen data.
+Proof.
+  induction lens as [|l t IH]; intros data aus H; cbn [split_aus] in H.
+  - injection H as <-. unfold fsize; cbn. lia.
+  - destruct (N.ltb_spec (nlen data) l); [discriminate|].
+    destruct (split_aus t (ndrop l data)) as [r|] eqn:E; [|discriminate]. cbn [option_map] in H. injection H as <-.
+    apply IH in E. rewrite nlen_ndrop in E. unfold fsize in *; cbn [concat]. rewrite nlen_app, nlen_ntake. lia.
+Qed.
+
+(* ---- the invariant ---- *)
+Definition Inv (d : dstate) : Prop :=
+  dsize d = nlen (concat (dfrags d)) /\ (dsize d = 0 -> dfrags d = []) /\
+  Forall (fun f => 0 < nlen f) (dfrags d).
+Definition clean (d : dstate) : Prop := dsize d = 0 /\ dfrags d = [].
+
+Lemma inv_init : Inv dinit.
+Proof. unfold Inv, dinit; cbn. splits; auto. Qed.
+Lemma inv_reset d : Inv (dreset d).
+Proof. unfold Inv, dreset; cbn. splits; auto. Qed.
+Lemma clean_reset d : clean (dreset d).
+Proof. split; reflexivity. Qed.
+Lemma clean_inv d : clean d -> Inv d.
+Proof. intros [H1 H2]. unfold Inv. rewrite H1, H2. cbn. splits; auto. Qed.
+
+Definition psz (p : packet) : N := nlen (ppayload p).
+
+(* one Decode call: invariant, no panic, retained size and returned size bounded *)
+Lemma dec_step P d p : Inv d -> dsize d <= N.max cap P -> psz p <= P ->
+  let '(d', r) := dec c d p in
+  Inv d' /\ dsize d' <= N.max cap P /\ r <> DPanic /\ (forall f, r = DFrame f -> fsize f <= N.max cap P).
+Proof.
+  intros HI HB HP.
+  assert (Hreset : Inv (dreset d) /\ dsize (dreset d) <= N.max cap P /\ @DErr (list bytes) <> DPanic /\
+                   (forall f, @DErr (list bytes) = DFrame f -> fsize f <= N.max cap P)).
+  { splits; [apply inv_reset|cbn; lia|discriminate|discriminate]. }
+  unfold dec. unfold psz in HP.
+  destruct (ppayload p) as [|b0 [|b1 payload]]; try exact Hreset.
+  cbn [nlen] in HP.
+  destruct (b0 * 256 + b1 =? 0); [exact Hreset|]. set (hl := b0 * 256 + b1).
+  pose proof (read_au_headers_spec payload hl) as Hr.
+  destruct (read_au_headers c payload hl) as [lens| |]; [|exact Hreset|contradiction].
+  destruct Hr as [Hpos Hhl].
+  assert (Hc8 : ceil8 hl <= nlen payload) by (apply ceil8_le; lia).
+  unfold nsub. destruct (N.leb_spec (ceil8 hl) (nlen payload)); [|lia].
+  destruct (N.leb_spec (nlen payload) (nlen payload)); [|lia]. cbn [andb].
+  set (data := ntake (nlen payload - ceil8 hl) (ndrop (ceil8 hl) payload)).
+  assert (Hdata : nlen data <= P). { unfold data. rewrite nlen_ntake, nlen_ndrop. lia. }
+  destruct HI as (Hs & Hz & Hfr).
+  destruct (N.eqb_spec (dsize d) 0) as [Hd|Hd].
+  - destruct (pmarker p).
+    + destruct (split_aus lens data) as [aus|] eqn:Esp; [|exact Hreset].
+      pose proof (remove_adts_spec (dreset d) aus) as Hra.
+      destruct (remove_adts (dreset d) aus) as [d' r]. destruct Hra as (H1 & H2 & H3 & H4 & H5).
+      splits.
+      * unfold Inv. rewrite H1, H2. cbn. splits; auto.
+      * rewrite H2. cbn. lia.
+      * assumption.
+      * intros f Ef. specialize (H5 f Ef). apply split_aus_size in Esp. lia.
+    + destruct lens as [|l0 [|l1 lt]]; try exact Hreset.
+      destruct (N.ltb_spec (nlen data) l0) as [|Hl0]; [exact Hreset|].
+      inversion Hpos as [|? ? Hl0p _]; subst. unfold posN in Hl0p.
+      splits; [|cbn [dsize]; lia|discriminate|discriminate].
+      unfold Inv; cbn [dsize dfrags dreset app concat]. rewrite app_nil_r, nlen_ntake.
+      splits; [lia|lia|]. constructor; [rewrite nlen_ntake; lia|constructor].
+  - destruct lens as [|l0 [|l1 lt]]; try exact Hreset.
+    destruct (N.ltb_spec (nlen data) l0) as [|Hl0]; [exact Hreset|].
+    destruct (pseq p =? dnext d); cbn [negb]; [|exact Hreset].
+    destruct (N.ltb_spec cap (dsize d + l0)) as [|Hcap]; [exact Hreset|].
+    inversion Hpos as [|? ? Hl0p _]; subst. unfold posN in Hl0p.
+    assert (Hlen : nlen (ntake l0 data) = l0) by (rewrite nlen_ntake; lia).
+    assert (HI' : Inv (mkD (dfirst d) (dadts d) (dfrags d ++ [ntake l0 data]) (dsize d + l0) (seq_next (dnext d)))).
+    { unfold Inv; cbn [dsize dfrags]. rewrite concat_snoc, nlen_app, Hlen. splits; [lia|lia|].
+      apply Forall_app. split; [assumption|]. constructor; [lia|constructor]. }
+    destruct (pmarker p); cbn [negb].
+    + cbn [dfrags].
+      replace (dsize d + l0) with (nlen (concat (dfrags d ++ [ntake l0 data])))
+        by (rewrite concat_snoc, nlen_app, Hlen; lia).
+      rewrite join_exact.
+      match goal with |- context [remove_adts ?dd ?aa] => pose proof (remove_adts_spec dd aa) as Hra; destruct (remove_adts dd aa) as [d' r] end.
+      destruct Hra as (H1 & H2 & H3 & H4 & H5). splits.
+      * unfold Inv. rewrite H1, H2. cbn. splits; auto.
+      * rewrite H2. cbn. lia.
+      * assumption.
+      * intros f Ef. specialize (H5 f Ef). unfold fsize in H5 at 2. cbn [concat] in H5.
+        rewrite app_nil_r, concat_snoc, nlen_app, Hlen in H5. lia.
+    + splits; [exact HI'|cbn [dsize]; lia|discriminate|discriminate].
+Qed.
+
+Definition BInv (P : N) (d : dstate) : Prop := Inv d /\ dsize d <= N.max cap P.
+
+Lemma dec_run_spec P hist : forall d, BInv P d -> Forall (fun p => psz p <= P) hist ->
+  let '(d', rs) := dec_run c d hist in
+  BInv P d' /\ ~ In DPanic rs /\ forall f, In (DFrame f) rs -> fsize f <= N.max cap P.
+Proof.
+  induction hist as [|p t IH]; intros d [HI HB] HF; cbn [dec_run].
+  - splits; [split; assumption|intros []|intros f []].
+  - inversion HF as [|? ? Hp Ht]; subst.
+    pose proof (dec_step P d p HI HB Hp) as Hstep. destruct (dec c d p) as [d' r].
+    destruct Hstep as (HI' & HB' & Hnp & Hfr).
+    specialize (IH d' (conj HI' HB') Ht). destruct (dec_run c d' t) as [d'' rs].
+    destruct IH as (HB'' & Hnp' & Hfr').
+    assert (G : BInv P d'' /\ ~ In DPanic (r :: rs) /\ forall f, In (DFrame f) (r :: rs) -> fsize f <= N.max cap P).
+    { splits; [assumption| |].
+      - intros [H|H]; [congruence|contradiction].
+      - intros f [H|H]; [now apply Hfr|now apply Hfr']. }
+    destruct r; try exact G. congruence.
+Qed.
+
+Lemma dec_run_inv hist d : Inv d ->
+  Inv (fst (dec_run c d hist)) /\ ~ In DPanic (snd (dec_run c d hist)).
+Proof.
+  intros HI.
+  assert (HP : exists P, Forall (fun p => psz p <= P) hist /\ dsize d <= N.max cap P).
+  { clear HI. induction hist as [|p t IH].
+    - exists (dsize d). split; [constructor|lia].
+    - destruct IH as (P & HF & HB). exists (N.max P (psz p)). split; [|lia].
+      constructor; [lia|]. eapply Forall_impl; [|exact HF]. cbn. intros; lia. }
+  destruct HP as (P & HF & HB).
+  pose proof (dec_run_spec P hist d (conj HI HB) HF) as H. destruct (dec_run c d hist) as [d' rs].
+  destruct H as ([H1 _] & H2 & _). split; assumption.
+Qed.
+
+Theorem total hist : ~ In DPanic (snd (dec_run c dinit hist)).
+Proof. apply (dec_run_inv hist dinit inv_init). Qed.
+
+Lemma nlen_concat_ge {A} (l : list (list A)) : Forall (fun f => 0 < nlen f) l -> nlen l <= nlen (concat l).
+Proof. induction 1 as [|x t Hx Ht IH]; cbn [nlen concat]; [lia|]. rewrite nlen_app. lia. Qed.
+
+Theorem bounded P hist :
+  Forall (fun p => psz p <= P) hist ->
+  let '(d, rs) := dec_run c dinit hist in
+  fst (retained d) <= N.max cap P /\ snd (retained d) <= N.max cap P /\
+  forall f, In (DFrame f) rs -> fsize f <= N.max cap P.
+Proof.
+  intros HF. pose proof (dec_run_spec P hist dinit) as H. destruct (dec_run c dinit hist) as [d rs].
+  destruct H as ([(Hs & Hz & Hne) Hb] & _ & Hfr); [split; [apply inv_init|cbn; lia]|assumption|].
+  unfold retained; cbn [fst snd]. splits; [lia| |assumption].
+  pose proof (nlen_concat_ge (dfrags d) Hne). lia.
+Qed.
+
+End D.
